@@ -763,3 +763,14 @@ fn c07_hmc_seeded_run_is_reproducible() {
     assert_eq!(a, b, "two HMC runs with the same seed differ");
     assert_ne!(a, run(43), "different seeds gave identical HMC output");
 }
+
+/// C07 (total for all seeds) — seeding NUTS with the largest seed must not fail.
+#[test]
+fn c07_nuts_seed_u64_max() {
+    use burn::backend::{Autodiff, NdArray};
+    use mini_mcmc::distributions::DiffableGaussian2D;
+    use mini_mcmc::nuts::NUTS;
+    type B = Autodiff<NdArray>;
+    let target = DiffableGaussian2D::new([0.0f32, 1.0], [[4.0, 2.0], [2.0, 3.0]]);
+    let _s = NUTS::<f32, B, _>::new(target, vec![vec![0.0f32, 0.0]; 3], 0.8).set_seed(u64::MAX);
+}
